@@ -17,6 +17,12 @@ theorem sound_fuel {σ : Mapper} {req : Request} {es : Entities} {env : SlotEnv}
 theorem sound_panic {σ : Mapper} {req : Request} {es : Entities} {env : SlotEnv} {y : Result Value} :
     Sound σ req es env y .panic := True.intro
 
+theorem RT_emptyRecord : RT (.record []) := by
+  intro m req es env n
+  cases n with
+  | zero => left; simp [pinterp]
+  | succ n => right; simp [Value.toExpr, Value.toExprKVs, pinterp, collectPVKVs, splitPV]
+
 theorem typedOK_vacuous {r : Expr} {y : Result Value} (h : ∀ name ty, r ≠ .unknown name ty) : TypedOK r y := by
   intro name t hr; exact (h _ _ hr).elim
 
